@@ -1,6 +1,6 @@
 SPECIFICATION Spec
 CONSTANTS MaxOps = 4 MaxSnaps = 3 MaxCrashes = 2 SnapEvery = 1 KeepSnap = 2 KeepCkpt = 1 ChanCap = 2 MaxTimeouts = 0
-  Role = "single" Persistent = FALSE SafePublish = TRUE Install = FALSE AtomicRestore = TRUE InstLatestAfterSave = TRUE Mutant = ""
+  Role = "single" Persistent = FALSE SafePublish = TRUE Install = FALSE AtomicRestore = TRUE InstLatestAfterSave = TRUE PurgePromptly = TRUE Mutant = ""
 VIEW View
 CHECK_DEADLOCK FALSE
 INVARIANT Recoverable
